@@ -292,8 +292,8 @@ func c18tls(c *Ctx) {
 				}
 			}
 		}
-		if nSN < 2 {
-			r.Fail("C18.verify", "package", "tls-config-field-written:floor", clone.Pos(), "fewer than the 2 known ServerName defaulting sites were found")
+		if nSN < 1 { // two sites today; a helper shared by both hops leaves one
+			r.Fail("C18.verify", "package", "tls-config-field-written:floor", clone.Pos(), "no ServerName defaulting site was found")
 		}
 	}
 	// doHandshake
